@@ -64,10 +64,13 @@ def _alarm(signum, frame):
 
 # ------------------------------------------------------------------ Lean side
 
-def lake_build(log: list[str]) -> bool:
+def lake_build(log: list[str], pre=None, tie_broken: list | None = None) -> bool:
     lock = open(LEAN / ".build.lock", "w")
     fcntl.flock(lock, fcntl.LOCK_EX)
     try:
+        if pre is not None:
+            # regenerated definitions are written under the same lock as the build
+            tie_broken += pre(REPO, LEAN) or []
         p = subprocess.run(["lake", "build"], cwd=LEAN, capture_output=True, text=True)
         log.append(p.stdout[-4000:] + p.stderr[-4000:])
         return p.returncode == 0 and DRIVER.exists()
@@ -114,9 +117,9 @@ def audit_axioms(module: str, theorems: list[str], work: Path) -> tuple[dict[str
     p = subprocess.run(["lake", "env", "lean", str(f)], cwd=LEAN, capture_output=True, text=True)
     out = p.stdout + p.stderr
     res: dict[str, list[str]] = {}
-    for m in re.finditer(r"'([^']+)' depends on axioms: \[([^\]]*)\]", out, re.S):
+    for m in re.finditer(r"'(\S+)' depends on axioms: \[([^\]]*)\]", out, re.S):
         res[m.group(1)] = [a.strip() for a in m.group(2).replace("\n", " ").split(",") if a.strip()]
-    for m in re.finditer(r"'([^']+)' does not depend on any axioms", out):
+    for m in re.finditer(r"'(\S+)' does not depend on any axioms", out):
         res[m.group(1)] = []
     return res, out
 
@@ -189,9 +192,7 @@ def _run(prop, mod, tier, seed, work, t0, replay_file) -> int:
     # 1-2 build
     pre = getattr(mod, "pre_build", None)
     tie_broken: list[str] = []
-    if pre is not None:
-        tie_broken += pre(REPO, LEAN) or []
-    built = lake_build(log)
+    built = lake_build(log, pre, tie_broken)
     if not built:
         # a broken build that comes from regenerated definitions is a broken proof obligation
         gen_related = getattr(mod, "build_failure_is_tie", lambda txt: False)(log[-1])
